@@ -13,8 +13,8 @@ call succeeds; an evaluation with a missing / unknown / doubly specified variabl
 import functools, random
 from fractions import Fraction
 import numpy as np
-from harness.core import quiet, q, close
-from harness.props.c01 import enc, enc_pos, enc_kw, refusal_reason, _named_lambda, TOL, UNKNOWN
+from harness.core import quiet, q
+from harness.props.c01 import enc, enc_pos, enc_kw, refusal_reason, _named_lambda, TOL, UNKNOWN, close
 
 VEC_NAMES, SC_NAMES = ["x", "u", "w"], ["s", "t", "r"]
 FAMS = {
@@ -220,7 +220,7 @@ class AttrProgram:
         from cuqi.density import EvaluatedDensity
         from cuqi.utilities import get_non_default_args
         if isinstance(o, EvaluatedDensity):
-            return ("EvaluatedDensity", [], {}, float(np.asarray(o.value, dtype=float).reshape(-1)[0]))
+            return ("EvaluatedDensity", [], {}, float(np.asarray(o.logd(), dtype=float).reshape(-1)[0]))
         d, kind, extra = o, "Distribution", None
         if isinstance(o, Likelihood):
             d, kind, extra = o.distribution, "Likelihood", np.asarray(o.data, dtype=float).reshape(-1)
@@ -233,7 +233,10 @@ class AttrProgram:
                 base, bound = v, {}
                 if isinstance(v, functools.partial):
                     base, bound = v.func, dict(v.keywords)
-                states[k] = ("F", getattr(base, "_c01_id", -1), {a: np.asarray(b, dtype=float).reshape(-1) for a, b in bound.items()},
+                fid = getattr(base, "_c01_id", None)
+                # how a partially applied callable is represented (functools.partial or any equivalent wrapper) is not
+                # part of the behaviour: identity and bound values are compared only when they can be read off
+                states[k] = ("F", fid, None if fid is None else {a: np.asarray(b, dtype=float).reshape(-1) for a, b in bound.items()},
                              list(get_non_default_args(v)))
             else:
                 states[k] = ("V", np.asarray(v, dtype=float).reshape(-1))
@@ -500,10 +503,12 @@ def cmp_state(p, key, mst, ist, owner=None):
         bound_s, rem_s = rest[:-1].split("~")
         bound = dict(t.split("=") for t in bound_s.split("&")) if bound_s else {}
         rem = rem_s.split(",") if rem_s else []
-        if int(fid) != ist[1]:
-            return f"{key}: another callable"
         if rem != ist[3]:
             return f"{key}: remaining arguments {ist[3]} vs model {rem}"
+        if ist[1] is None:
+            return None
+        if int(fid) != ist[1]:
+            return f"{key}: another callable"
         if set(bound) != set(ist[2]) or any(not _same(_vec(bound[a]), ist[2][a]) for a in bound):
             return f"{key}: partial.keywords differ from the model's bound arguments"
         return None
@@ -710,7 +715,7 @@ def run_attr_programs(ctx, cuqi, nprog):
             if isinstance(ir, tuple) and ir[0] != "val":
                 hist["result_kinds"][ir[0]] = hist["result_kinds"].get(ir[0], 0) + 1
                 for st in ir[2].values():
-                    tag = {"N": "None", "V": "value"}.get(st[0], "callable" + ("-partial" if st[0] == "F" and st[2] else ""))
+                    tag = {"N": "None", "V": "value"}.get(st[0], "callable" + ("-partial" if st[0] == "F" and (st[2] or (st[2] is None)) else ""))
                     hist["states"][tag] = hist["states"].get(tag, 0) + 1
             try:
                 why = compare(p, mr, ir)
